@@ -177,6 +177,14 @@ func reifyInto(opts *options, to reflect.Value, from *Config) Error {
 
 	switch k {
 	case reflect.Map:
+		// allocate nil pointers on the way to the map
+		for to.Kind() == reflect.Ptr {
+			if !to.CanSet() {
+				return raisePointerRequired(to)
+			}
+			to.Set(reflect.New(to.Type().Elem()))
+			to = chaseValuePointers(to)
+		}
 		return reifyMap(opts, to, from, nil)
 	case reflect.Struct:
 		return reifyStruct(opts, to, from)
